@@ -117,6 +117,12 @@ func main() {
 	}
 }
 
+var stemRE = regexp.MustCompile(`~\d+$`)
+
+// oblStem strips the ordinal that distinguishes several instances of one clause (e.g. the back
+// edges of a loop): a change that adds a path must not move a claimed clause out of the baseline.
+func oblStem(name string) string { return stemRE.ReplaceAllString(name, "") }
+
 type oblReport struct {
 	Name   string  `json:"name"`
 	Kind   string  `json:"kind"`
@@ -220,6 +226,13 @@ func runCheck(o *options) int {
 		}
 		lm := lm
 		gen("lemma:"+lm.Name, func() *Unit { return verifyLemma(p, db, lm, o.prop) })
+	}
+	for _, w := range db.Writers {
+		if !hasProp(w.Props) {
+			continue
+		}
+		w := w
+		gen("writers:"+shortKey(w.Key), func() *Unit { return verifyWriters(p, db, w) })
 	}
 	covered := map[string]bool{}
 	for _, u := range units {
@@ -336,6 +349,11 @@ func report(o *options, p *Prog, db *ContractDB, units []*Unit, known []KnownFin
 	byBackend := map[string]int{}
 	solverTime := 0.0
 	seen := map[string]bool{}
+	seenStem := map[string]bool{}
+	baselineStem := map[string]bool{}
+	for name := range baseline {
+		baselineStem[oblStem(name)] = true
+	}
 	var funcs, assumptions, unsupported, externs, contracts, inlined, callsites []string
 	replayDir := filepath.Join(o.verif, "replay", o.prop)
 	var discharged []string
@@ -357,6 +375,7 @@ func report(o *options, p *Prog, db *ContractDB, units []*Unit, known []KnownFin
 		}
 		for _, ob := range u.Obls {
 			seen[ob.Name] = true
+			seenStem[oblStem(ob.Name)] = true
 			r := oblReport{Name: ob.Name, Kind: ob.Kind, Unit: u.Name, Pos: ob.Pos, Text: ob.Text, Result: ob.Result, Solver: ob.Solver, Time: ob.Time, Size: ob.SMTSize}
 			solverTime += ob.Time
 			if ob.MustSat {
@@ -390,7 +409,7 @@ func report(o *options, p *Prog, db *ContractDB, units []*Unit, known []KnownFin
 				if kf, ok := knownMap[ob.Name]; ok {
 					r.Status = "known-finding"
 					knownHits = append(knownHits, fmt.Sprintf("KNOWN-FINDING: property=%s %s [%s] (%s)", o.prop, kf.What, ob.Name, ob.Result))
-				} else if !haveBaseline || baseline[ob.Name] || autoKind(ob.Kind) {
+				} else if !haveBaseline || baseline[ob.Name] || baselineStem[oblStem(ob.Name)] || autoKind(ob.Kind) {
 					r.Status = "VIOLATION"
 					path := writeReplay(replayDir, o, u, ob)
 					suffix := ""
@@ -410,7 +429,7 @@ func report(o *options, p *Prog, db *ContractDB, units []*Unit, known []KnownFin
 	if haveBaseline && o.only == "" {
 		var missing []string
 		for name := range baseline {
-			if !seen[name] && handKind(name) {
+			if !seen[name] && !seenStem[oblStem(name)] && handKind(name) {
 				missing = append(missing, name)
 			}
 		}
